@@ -1,0 +1,8 @@
+//go:build verif
+
+package container
+
+// VerifSlots exposes the backing array and the read/write indices of the ring buffer.
+func (r *ringBuffer[V]) VerifSlots() (buf []V, rd, wr int) {
+	return r.buf, r.r, r.w
+}
